@@ -98,10 +98,7 @@ def interleaved_history(reg, tier, rng, per_test):
         if mutated:
             fails.append({"kind": "purity", "function": name, "case": c, "impl": canon,
                           "clause": f"arguments modified by the call: {mutated}"})
-        if canon.startswith("R:"):
-            fails.append({"kind": "predicate", "function": name, "case": c, "impl": canon,
-                          "clause": "the test raised on a valid input"})
-        elif flags_of(canon) is None:
+        if not canon.startswith("R:") and flags_of(canon) is None:
             fails.append({"kind": "shape", "function": name, "case": c, "impl": canon,
                           "clause": "result is not one plain flag per input element"})
     order2 = list(order)
@@ -542,3 +539,19 @@ def c15_failures(name, ad, c, rng, full=False):
                           "carrier": {"data": dc, "time": tc, "spans": sk},
                           "clause": f"flags differ when the same series is given as data={dc} time={tc} spans={sk}"})
     return n_eval, fails
+
+
+# ------------------------------------------------------------------ shared driver pieces
+
+ALL_MODELS = ["Generated", "Range", "Spike", "Rate", "Location", "Density", "FlatLine", "Attenuated", "Calendar",
+              "Climatology"]
+
+
+def tie(reg, tier, rng, k, ctx):
+    """model/implementation correspondence on a sample of every test's in-domain cases"""
+    import adapters
+    out = []
+    for name, ad, gen in reg:
+        cs = sample(domain_cases(name, ad, gen, tier, rng), k, rng)
+        out.append((name, ad, cs, adapters.run_adapter(ad, cs, rng, repeat_frac=0.15, with_spec=not ctx["props_ok"])))
+    return out
